@@ -99,6 +99,24 @@ def c17(out, nrandom, seed, small_max):
                 rows.append(row)
             except Exception as e:
                 rows.append({'t': 'derived_error', 'name': lay.__class__.__name__, 'involved': [q.id for q in inv], 'exc': e.__class__.__name__ + ': ' + str(e)[:200]})
+    # composite descriptions with exclusions (edges given in either orientation, qubits) and "only required parking"
+    for lay in layouts:
+        base = RepetitionCodeDescription.from_connectivity(involved_qubit_ids=[q for q in lay.involved_qubit_ids if q in lay.data_qubit_ids or q in lay.ancilla_qubit_ids], connectivity=lay)
+        base_layers = layers_of(base.gate_sequences)
+        all_edges = [op.identifier for L in base.gate_sequences for op in L.gate_operations]
+        code = base.data_qubit_ids + base.ancilla_qubit_ids
+        for _ in range(max(6, nrandom // 6)):
+            ex_e = rnd.sample(all_edges, rnd.randint(0, min(3, len(all_edges))))
+            ex_e = [e if rnd.randint(0, 1) else EdgeIDObj(e.qubit_ids[1], e.qubit_ids[0]) for e in ex_e]      # either orientation
+            ex_q = rnd.sample(code, rnd.randint(0, 2))
+            only = bool(rnd.randint(0, 1))
+            try:
+                comp = CompositeRepetitionCodeDescription(_base_description=base, _qubit_index_map={q: i for i, q in enumerate(code)}, _connectivity=lay,
+                                                          _exclude_gate_edge_ids=ex_e, _exclude_gate_qubit_ids=ex_q, _only_required_parking_operations=only)
+                rows.append({'t': 'composite', 'name': lay.__class__.__name__, 'layers': layers_of(comp.gate_sequences), 'base': base_layers,
+                             'exclude_edges': [pair(e) for e in ex_e], 'exclude_qubits': [q.id for q in ex_q], 'only_required': only})
+            except Exception as e:
+                rows.append({'t': 'derived_error', 'name': lay.__class__.__name__, 'involved': ['composite'], 'exc': e.__class__.__name__ + ': ' + str(e)[:200]})
     json.dump(rows, open(out, 'w'))
     print(len(rows))
 
